@@ -10,10 +10,11 @@ from harness import synth
 PTR = {"x86": ["gpr:b", "gpr:si", "gpr:d", "gpr:r8"], "aarch64": ["gp:1", "gp:2", "gp:3", "gp:9"]}
 DATA = {"x86": ["gpr:a", "gpr:c", "gpr:r11"], "aarch64": ["gp:0", "gp:17", "gp:28"]}
 MN = {
-    "real": {"x86": dict(st="movq", ld="movq", add="addq", sub="subq", inc="incq", dec="decq", cpy="movq", clb="imulq"),
+    "real": {"x86": dict(st="movq", ld="movq", add="addq", sub="subq", inc="incq", dec="decq", cpy="movq", clb="imulq",
+                         rmw="incq"),
              "aarch64": dict(st="str", ld="ldr", add="add", sub="sub", cpy="mov", clb="mul")},
-    "syn": {"x86": dict(st="sto", ld="lod", add="adi", sub="sbi", inc="inc1", dec="dec1", cpy="cpy", clb="clb"),
-            "aarch64": dict(st="sto", ld="lod", add="adi", sub="sbi", cpy="cpy", clb="clb")},
+    "syn": {"x86": dict(st="sto", ld="lod", add="adi", sub="sbi", inc="inc1", dec="dec1", cpy="cpy", clb="clb", rmw="rmi"),
+            "aarch64": dict(st="sto", ld="lod", add="adi", sub="sbi", cpy="cpy", clb="clb", rmw="rmi")},
 }
 
 
@@ -84,6 +85,26 @@ def load(isa, fl, dst, b, x, s, d, mode=None, imm=0):
     return _fin(ins)
 
 
+def rmw(isa, fl, src, b, x, s, d):
+    """Read-modify-write of a memory location: a load and a store of the same operand, with
+    flag outputs (several destination operands on one instruction)."""
+    m = MN[fl][isa]
+    if "rmw" not in m:
+        return None
+    t = memtext(isa, b, x, s, d)
+    if isa == "x86":
+        ins = _base("%s %s" % (m["rmw"], t)) if fl == "real" else _base("%s %%%s, %s" % (m["rmw"], wide(isa, src), t))
+    else:
+        ins = _base("%s %s, %s" % (m["rmw"], wide(isa, src), t))
+    ins["R"] |= {b} | ({x} if x else set()) | (set() if (isa == "x86" and fl == "real") else {src})
+    ref = {"b": b, "x": x or "", "s": s, "d": d, "t": t}
+    ins["ST"] = [dict(ref)]
+    ins["LD"] = [dict(ref)]
+    ins["FW"] = ["f:C"]
+    ins["shape"] = "rmw" + ("x" if x else "")
+    return _fin(ins)
+
+
 def bump(isa, fl, r, v):
     m = MN[fl][isa]
     if isa == "x86":
@@ -144,7 +165,12 @@ def gen_program(isa, fl, rnd, max_mid=4):
     if isa == "aarch64" and not use_index and rnd.random() < 0.2:
         st_mode = rnd.choice(["pre", "post"])
     d0 = 0 if (isa == "aarch64" and use_index) else disp()
-    instrs.append(store(isa, fl, rnd.choice(DATA[isa]), b, xr if use_index else None, s, d0, st_mode, rnd.choice([8, 16, -8])))
+    first = None
+    if st_mode is None and rnd.random() < 0.25:
+        first = rmw(isa, fl, rnd.choice(DATA[isa]), b, xr if use_index else None, s, d0)
+    if first is None:
+        first = store(isa, fl, rnd.choice(DATA[isa]), b, xr if use_index else None, s, d0, st_mode, rnd.choice([8, 16, -8]))
+    instrs.append(first)
     regs_now = [b]   # registers that (may) hold the base value
     for _ in range(rnd.randint(0, max_mid)):
         r = rnd.random()
@@ -170,6 +196,8 @@ def gen_program(isa, fl, rnd, max_mid=4):
                 instrs.append(store(isa, fl, rnd.choice(DATA[isa]), rnd.choice(regs_now), None, 1, disp()))
         elif r < 0.86:
             instrs.append(load(isa, fl, rnd.choice(DATA[isa]), rnd.choice(regs_now), None, 1, disp()))
+        elif r < 0.92 and rmw(isa, fl, DATA[isa][0], b, None, 1, 0) is not None:
+            instrs.append(rmw(isa, fl, rnd.choice(DATA[isa]), rnd.choice(regs_now), None, 1, disp()))
         else:
             instrs.append(dc.noise_instr(isa, rnd, len(instrs)))
     for _ in range(rnd.randint(1, 2)):
@@ -215,6 +243,8 @@ def write_syn_models(isa, dirpath, rnd, fwd):
         add(m["dec"], [R()], [R(True, True)], "op1['value'] -= 1")
         add(m["cpy"], [R(), R()], [R(True, False), R(False, True)], "op2['name'] = op1['name']; op2['value'] = op1['value']")
         add(m["clb"], [R(), R()], [R(True, False), R(True, True)], None)
+        add(m["rmw"], [R(), M()], [R(True, False), M(True, True)], None)
+        isaforms[-1]["hidden_operands"] = [synth.flag("C", False, True)]
     else:
         add(m["st"], [R(), M()], [R(True, False), M(False, True)])
         add(m["ld"], [R(), M()], None)                                     # default rule: first operand written
@@ -224,6 +254,8 @@ def write_syn_models(isa, dirpath, rnd, fwd):
             "op1['value'] = op2['value'] - op3['value']; op1['name'] = op2['name']")
         add(m["cpy"], [R(), R()], [R(False, True), R(True, False)], "op1['name'] = op2['name']; op1['value'] = op2['value']")
         add(m["clb"], [R(), R(), R()], None)
+        add(m["rmw"], [R(), M()], [R(True, False), M(True, True)], None)
+        isaforms[-1]["hidden_operands"] = [synth.flag("C", False, True)]
     arch = synth.write_arch_model(os.path.join(dirpath, "syn_%s.yml" % isa), isa, ["0", "1"], forms,
                                   load_default=[[1, "1"]], store_default=[[1, "1"]],
                                   extras={"store_to_load_forward_latency": fwd, "p_index_latency": 1.0})
